@@ -1,4 +1,5 @@
 import PyYetiVerif.Lemmas.Op4VariantsReadDense
+import PyYetiVerif.Lemmas.Op4VariantsReadCut
 /-!
 # C11 (continued) — the binary OUTPUT4 reader, every physical variant
 
@@ -134,6 +135,23 @@ theorem op4_cutoff_irrelevant_enc (v : Variant) (c₁ c₂ : Int) (pl : List (Li
   cases hf1
   cases hf2
   rw [h1, h2]
+
+/-- **cutoff_irrelevant (OUTPUT4), on every byte string.**  No encoder: for EVERY file `f`, every name list and
+any two values of `_rowsCutoff`, if the read with the first cut-off succeeds then the read with the second
+succeeds and returns the same matrices — the two value-reading paths on either side of the cut-off are the same
+function of the bytes wherever a read succeeds.  (Where `struct.unpack` raises on a string cut short by the end
+of the file, `numpy.fromfile` returns fewer values and the failure comes one read later.) -/
+theorem op4_cutoff_irrelevant (c₁ c₂ : Int) (pl : List (List Nat)) (f : List Nat) (ds : List VDec)
+    (h : loadBytes c₁ pl f = .ok ds) : loadBytes c₂ pl f = .ok ds := by
+  unfold loadBytes at h ⊢
+  cases hd : detect f with
+  | error e => rw [hd] at h; cases h
+  | ok o =>
+    cases o with
+    | none => rw [hd] at h; cases h
+    | some v =>
+      rw [hd] at h
+      exact loadLoop_indep v c₁ c₂ pl _ _ _ ds h
 
 /-- **decoded to exactly the encoded matrix, whatever the partition.**  `applyPuts` is the dense read
 (`X[r : r + len(Y), c] = Y` for every put, numpy semantics, on a zero matrix of `ncols` columns of `m·rows`
